@@ -189,11 +189,21 @@ def observe_fit(idnt, kwargs, label="", post=None, fault=False):
                     e_, d_ = idnt.compute_emodulus_mindelta()
                     if len(e_) != nn or len(d_) != nn:
                         out["rescan_ok"] = False
-                idnt.fit_model()
         except BaseException as exc:
             if isinstance(exc, (KeyboardInterrupt, SystemExit)):
                 raise
             out["post_raised"] = type(exc).__name__
+        finally:
+            # (whatever the scans did or refused to do: the inspection below
+            # looks at a regular fit of the stored settings)
+            try:
+                with warnings.catch_warnings():
+                    warnings.simplefilter("ignore")
+                    idnt.fit_model()
+            except BaseException as exc:
+                if isinstance(exc, (KeyboardInterrupt, SystemExit)):
+                    raise
+                out["raised"] = "post:" + type(exc).__name__
     elif post and not out["raised"]:
         try:
             run_post(idnt, post)
